@@ -222,6 +222,36 @@ def load(repo):
                                                  and x.value.args[0].value in cnames)] or [ast.Pass()]
     from . import objflat
 
+    # enumerators declared in a `cdef extern` block (`cdef enum parse_status: PARSE_SUCCEEDED ..`) take their values from
+    # the C++ header: their names read as those integers
+    enum_names = set()
+    in_enum = None
+    for ln in text.split('\n'):
+        m_ = re.match(r'^(\s*)c?p?def\s+enum\b[^:]*:\s*$', ln)
+        if m_:
+            in_enum = len(m_.group(1))
+            continue
+        if in_enum is not None:
+            if not ln.strip():
+                continue
+            if len(ln) - len(ln.lstrip()) <= in_enum:
+                in_enum = None
+                continue
+            for part in ln.split('#')[0].split(','):
+                nm_ = part.split('=')[0].strip()
+                if nm_.isidentifier() and nm_ != 'pass':
+                    enum_names.add(nm_)
+    if enum_names:
+        from . import cxx
+        values = cxx.load(repo).get('enums:', {})
+
+        class _Enum(ast.NodeTransformer):
+            def visit_Name(self, node):
+                if isinstance(node.ctx, ast.Load) and node.id in enum_names and isinstance(values.get(node.id), int):
+                    return ast.copy_location(ast.Constant(value=values[node.id]), node)
+                return node
+        _Enum().visit(tree)
+
     # pointers are erased by this front end (`&x` reads x), so dereferencing one reads the variable as well
     class _Deref(ast.NodeTransformer):
         def visit_Call(self, node):
